@@ -91,3 +91,15 @@ def _misc(repo, rep):
     M.investigation_rule(repo, rep)
 
 PROPS["C20"] = _misc
+
+
+def _ode(repo, rep):
+    from .rules import ode as O
+    O.r2r3(repo, rep, ["analytic"])
+    O.time_grid(repo, rep)
+    O.conservation(repo, rep)
+    O.r4(repo, rep)
+    O.r6(repo, rep)
+    O.degree_roles(repo, rep)
+
+PROPS["C06"] = _ode
